@@ -72,9 +72,94 @@ def job(args):
     return res
 
 
+def inproc_lines_job(args):
+    h, path, lo, hi, seed = args
+    return core.run([h, "lines", path, str(lo), str(hi), str(seed)], core.base_env(), timeout=600)
+
+
+def inproc_syslines_job(args):
+    h, path, heads, lo, hi, seed = args
+    return core.run([h, "syslines", path, heads, str(lo), str(hi), str(seed), "0"], core.base_env(), timeout=600)
+
+
+def run_inprocess(ctx, rng):
+    """LineReader / SyslineReader against a reference splitter for every block size from 1."""
+    import json
+    h = core.build_harness()
+    d = ctx.casedir("inproc")
+    jobs, meta = [], []
+    alphabet = b"a\n\r\x00\xff"
+    nfiles = ctx.pick(300, 6000)
+    for i in range(nfiles):
+        n = rng.choice([0, 1, 2, 3, 5, 8, 13, 24, 40])
+        if rng.random() < 0.5:
+            data = bytes(rng.choice(alphabet) for _ in range(n))
+        else:
+            data = bytes(rng.choice(b"a\n\n\n") for _ in range(n))
+        path = gen.write(os.path.join(d, "l%05d.txt" % i), data)
+        jobs.append((h, path, 1, len(data) + 2, ctx.seed + i))
+        meta.append(("lines", data))
+    res = core.pmap(inproc_lines_job, jobs)
+    for (kind, data), r in zip(meta, res):
+        if r.timed_out:
+            ctx.inconc("watchdog")
+            continue
+        try:
+            st = json.loads(r.out.decode().splitlines()[0])
+        except Exception:
+            ctx.violation("C02|inprocess|lines|crash", "harness died: rc=%s stderr=%r" % (r.rc, r.err[-300:]), files={"input": data})
+            continue
+        ctx.evaluated(st["pairs"], ("lines", data))
+        ctx.count("in-process LineReader (file, blocksz) pairs", st["pairs"])
+        ctx.count("in-process LineReader find_line queries", st["queries"])
+        if st["mismatches"]:
+            first = [l for l in r.out.decode("utf-8", "replace").splitlines() if l.startswith("MISMATCH")][:3]
+            ctx.violation("C02|inprocess|find_line-differs-from-reference", "; ".join(first), files={"input": data, "harness.out": r.out},
+                          info={"argv": r.argv})
+    # syslines
+    jobs, meta = [], []
+    nfiles = ctx.pick(120, 2500)
+    for i in range(nfiles):
+        B = rng.choice([8, 16, 31, 32, 33, 64])
+        pre, msgs = cases.aligned_log(rng, B, rng.choice([1, 2, 3, 5, 8]), notation=rng.choice(["iso_space", "compact", "iso_t_us_off"]),
+                                      long_lines=False, preamble=(rng.random() < 0.25), crlf=0.15)
+        for m in msgs:
+            if len(m.data) > 300:
+                m.data = m.data[:200].replace(b"\n", b"x") + b"\n"
+        tn = rng.random() < 0.7
+        data = pre + gen.log_bytes(msgs, tn)
+        path = gen.write(os.path.join(d, "s%05d.log" % i), data)
+        offs, p = [], len(pre)
+        for m in msgs:
+            offs.append(p)
+            p += len(m.data)
+        heads = gen.write(os.path.join(d, "s%05d.heads" % i), ("\n".join(map(str, offs)) + "\n").encode())
+        hi = min(len(data) + 2, ctx.pick(140, 400))
+        jobs.append((h, path, heads, 1, hi, ctx.seed + i))
+        meta.append(data)
+    res = core.pmap(inproc_syslines_job, jobs)
+    for data, r in zip(meta, res):
+        if r.timed_out:
+            ctx.inconc("watchdog")
+            continue
+        try:
+            st = json.loads(r.out.decode().splitlines()[0])
+        except Exception:
+            ctx.violation("C02|inprocess|syslines|crash", "harness died: rc=%s stderr=%r" % (r.rc, r.err[-300:]), files={"input": data})
+            continue
+        ctx.evaluated(st["pairs"], ("syslines", data))
+        ctx.count("in-process SyslineReader (file, blocksz) pairs", st["pairs"])
+        ctx.count("in-process SyslineReader find_sysline queries", st["queries"])
+        if st["mismatches"]:
+            first = [l for l in r.out.decode("utf-8", "replace").splitlines() if l.startswith("MISMATCH")][:3]
+            ctx.violation("C02|inprocess|find_sysline-differs-from-reference", "; ".join(first), files={"input": data, "harness.out": r.out},
+                          info={"argv": r.argv})
+
+
 def run(ctx):
     s4 = core.build_s4()
     rng = ctx.rng
+    run_inprocess(ctx, rng)
     bszs = ctx.pick(BLOCKSZS_QUICK, BLOCKSZS_THOROUGH)
     ncases = ctx.pick(700, 12000)
     ctx.rule = ("boundary-directed text logs (targets k*B-1/k*B/k*B+1 for line ends and message starts, lines of B-1/B/B+1/2B+1/3B+1, "
